@@ -45,15 +45,15 @@ const (
 	OConst Op = iota // integer constant K
 	OTrue
 	OFalse
-	OVar   // Name, Sort
-	OAdd   // n-ary
-	OMul   // n-ary; first arg may be OConst coefficient
-	ODiv   // floor div by positive constant (args[1] const) or general (SMT div)
-	OMod   // floor mod
-	OIte   // args: c, a, b
-	OEq    // any sort
-	OLt    // Int
-	OLe    // Int
+	OVar // Name, Sort
+	OAdd // n-ary
+	OMul // n-ary; first arg may be OConst coefficient
+	ODiv // floor div by positive constant (args[1] const) or general (SMT div)
+	OMod // floor mod
+	OIte // args: c, a, b
+	OEq  // any sort
+	OLt  // Int
+	OLe  // Int
 	ONot
 	OAnd // n-ary
 	OOr  // n-ary
@@ -171,9 +171,9 @@ func (f *Factory) Int(k *big.Int) *Term {
 	}
 	return f.intern(&Term{Op: OConst, K: new(big.Int).Set(k), S: SInt})
 }
-func (f *Factory) I64(k int64) *Term    { return f.Int(big.NewInt(k)) }
-func (f *Factory) True() *Term          { return f.intern(&Term{Op: OTrue, S: SBool}) }
-func (f *Factory) False() *Term         { return f.intern(&Term{Op: OFalse, S: SBool}) }
+func (f *Factory) I64(k int64) *Term { return f.Int(big.NewInt(k)) }
+func (f *Factory) True() *Term       { return f.intern(&Term{Op: OTrue, S: SBool}) }
+func (f *Factory) False() *Term      { return f.intern(&Term{Op: OFalse, S: SBool}) }
 func (f *Factory) Bool(b bool) *Term {
 	if b {
 		return f.True()
